@@ -22,6 +22,9 @@ for p in props:
     except AnalysisError as exc:
         print(f'== {p} exit=2 ANALYSIS-ERROR {exc}'); continue
     new = [f for f in ctx.findings if f.key not in bk]
+    gone = sorted(bk - {f.key for f in ctx.findings})
+    if gone:
+        print(f'   {p}: no longer reported: ' + '; '.join(gone))
     print(f'== {p} exit={1 if new else (2 if ctx.errors else 0)} ' + ' '.join('finding ' + f.key for f in new[:4])
           + (' ANALYSIS-ERROR ' + str(ctx.errors[0]) if ctx.errors and not new else ''))
     for f in new[:2]:
